@@ -1044,7 +1044,7 @@ theorem bhcomp_eq {c : FC} {F : Fmt} (h : FCok c F) (integer fraction : Bytes) (
       unfold scientificExponent intoI32
       simp only [beq_self_eq_true, if_true]
       rw [if_neg (by omega), satI32_id' (exponent - (start : Int)) (by omega) (by omega), satI32_id' _ (by omega) (by omega)]
-    rw [hsci, parseMantissa_eq c h.maxd [] sig]
+    rw [hsci, parseMantissa_eq c (by have := h.maxd; omega) [] sig]
     simp only [List.nil_append]
     have hcount : fraction.length - start = sig.length := hsiglen.symm
     rw [hcount]
@@ -1072,7 +1072,7 @@ theorem bhcomp_eq {c : FC} {F : Fmt} (h : FCok c F) (integer fraction : Bytes) (
       simp only [Bool.false_eq_true, if_false]
       rw [if_neg (by omega), satI32_id' _ (by omega) (by omega)]
       omega
-    rw [hsci, parseMantissa_eq c h.maxd integer fraction, ← List.length_append]
+    rw [hsci, parseMantissa_eq c (by have := h.maxd; omega) integer fraction, ← List.length_append]
     have hsc : exponent + (integer.length : Int) - 1 + 1 - ((min c.maxDigits (integer ++ fraction).length : Nat) : Int) =
         (exponent - fraction.length) + ((integer ++ fraction).length : Int) - ((min c.maxDigits (integer ++ fraction).length : Nat) : Int) := by
       rw [List.length_append]; push_cast; omega
